@@ -84,6 +84,16 @@ pub fn p_c03_point(depth: u8, lon: f64, lat: f64) {
   if dx > margin && dx < 1.0 - margin && dy > margin && dy < 1.0 - margin {
     assert!(layer.hash(lon, lat) == h, "C03: hash and hash_with_dxdy disagree away from cell borders: depth {} lon {:e} lat {:e}", depth, lon, lat);
   }
+  // sph_coo inverts hash_with_dxdy whenever both offsets are in [0, 1): the position is recovered to within 1e-13 rad
+  if dx >= 0.0 && dx < 1.0 && dy >= 0.0 && dy < 1.0 {
+    let (lon3, lat3) = layer.sph_coo(h, dx, dy);
+    let sdlat = (0.5 * (lat3 - lat)).sin();
+    let sdlon = (0.5 * (lon3 - lon)).sin();
+    let a = sdlat * sdlat + lat.cos() * lat3.cos() * sdlon * sdlon;
+    let sep = 2.0 * a.sqrt().asin();
+    assert!(sep <= 1e-13 + 1e-15 * lon.abs(), "C03: sph_coo does not invert hash_with_dxdy: depth {} lon {:e} ({:#x}) lat {:e} ({:#x}) -> cell {} offsets ({:e}, {:e}) -> ({:e}, {:e}), separation {:e} rad",
+            depth, lon, lon.to_bits(), lat, lat.to_bits(), h, dx, dy, lon3, lat3, sep);
+  }
 }
 
 #[cfg(not(kani))]
